@@ -176,7 +176,10 @@ impl<'a, 'b> SurfGen<'a, 'b> {
                 break;
             }
             self.goals_left -= 1;
-            let mut w = [8u32, 0, 0, 0, 0, 4, 1, 0];
+            let mut w = [8u32, 0, 0, 0, 0, 4, 1, 0, 0];
+            if depth < 2 && !self.in_closure {
+                w[8] = 1; // dfs { } block
+            }
             if depth < 3 {
                 w[1] = 4; // conde
                 w[2] = 2; // nested conjunction
@@ -238,6 +241,13 @@ impl<'a, 'b> SurfGen<'a, 'b> {
                     self.kinds_seen.insert("true/false");
                     out.push(if self.s.flag(200) { Goal::Succeed } else { Goal::Fail });
                 }
+                8 => {
+                    // dfs { cond { … }, |z| { … } }: disjunctions inside are printed as `cond`
+                    self.kinds_seen.insert("dfs-block");
+                    let mut sc = scope.clone();
+                    let b = self.goals(&mut sc, depth + 1, 1);
+                    out.push(Goal::Dfs(b));
+                }
                 _ => {
                     // for x in &coll { body over x and constants only }
                     self.kinds_seen.insert("for");
@@ -271,6 +281,15 @@ pub fn gen_c14(s: &mut Source) -> (Program, Names, Vec<&'static str>) {
     let nq = 1 + s.below(3);
     let mut g = SurfGen::new(s, nq as VarId);
     g.goals_left = 9;
+    // query variable names: often not in alphabetical order of declaration
+    if g.s.flag(150) {
+        let pool = ["zq", "mq", "aq"];
+        let perm = g.s.permutation(3);
+        for i in 0..nq {
+            g.names.names.insert(i as VarId, format!("{}{}", pool[perm[i]], i));
+        }
+        g.kinds_seen.insert("query-variable-names-not-alphabetical");
+    }
     g.names.cond_everywhere = g.s.flag(60);
     g.names.isize_suffix = g.s.flag(60);
     g.names.lterm_args = g.s.flag(90);
@@ -286,6 +305,12 @@ pub fn gen_c14(s: &mut Source) -> (Program, Names, Vec<&'static str>) {
     }
     if !marks.is_empty() {
         body.push(Goal::Conde(vec![marks, vec![Goal::Succeed]]));
+    }
+    // `loop { … }` / `always()` as a prefix: an infinite stream whose first answers are checked
+    if g.s.flag(20) {
+        g.kinds_seen.insert("loop-prefix");
+        let pre = if g.s.flag(128) { Goal::Always } else { Goal::Anyo(vec![Goal::Call(Rel::Member, vec![Term::Var(0), Term::ints(&[1, 2])])]) };
+        body.insert(0, pre);
     }
     let kinds: Vec<&'static str> = g.kinds_seen.iter().copied().collect();
     (Program { nq, body }, g.names, kinds)
@@ -579,10 +604,18 @@ pub fn gen_c15(s: &mut Source) -> (Program, Names, Vec<&'static str>) {
                     }
                     let t = ids[g.s.below(ids.len())];
                     let mut arms = vec![];
+                    // sometimes the tail pattern variable takes the name of the matched variable
+                    // itself (the pattern shadows the scrutinee, as in `match l { [_ | l] => .. }`)
+                    let shadow_scrutinee = g.s.flag(128);
+                    let tname = if shadow_scrutinee { g.names.name(t, nq) } else { "t".to_string() };
+                    if shadow_scrutinee {
+                        g.kinds_seen.insert("pattern-variable-shadows-matched-term");
+                        g.kinds_seen.insert("name-shadows-outer-binding");
+                    }
                     for _ in 0..2 {
                         let (a, b) = (g.fresh_id(), g.fresh_id());
                         g.names.names.insert(a, "h".to_string());
-                        g.names.names.insert(b, "t".to_string());
+                        g.names.names.insert(b, tname.clone());
                         let pat = if g.s.flag(128) { Term::cons(Term::Var(a), Term::Var(b)) } else { Term::list(vec![Term::Var(a), Term::Var(b)]) };
                         // body uses the pattern variables and an outer variable that is not the
                         // matched one and is not named h / t
